@@ -11,7 +11,14 @@ def plan(tier):
             "index_exhaustive_small", "nonpow2_alphabet", "nonpow2_top_rank_qgram",
             "pattern_offset_exceeds_text_position", "max_count_small", "text_shorter_than_q",
             "pattern_shorter_than_q", "codes_full_word", "codes_sigma1", "codes_beyond_2p30", "unary_alphabet", "unary_alphabet_q_above_64",
-            "exact_k_jump_chains_in_long_list", "same_diagonal_pairs_every_distance", "same_diagonal_pair_closer_than_k",
+            "exact_k_jump_chains_in_long_list", "k_equals_1_chain", "matches_sharing_x_and_sharing_y",
+            "unsorted_match_list_offered",
+            "ranktransform_clone", "ranktransform_serde_roundtrip", "ranktransform_clone_from_into_used_object",
+            "qgram_iterators_forked_and_consumed_by_adaptors", "qgram_input_iterators_by_value_and_inexact_hints",
+            "qgramindex_clone", "qgramindex_serde_roundtrip", "qgramindex_clone_from_into_used_object",
+            "qgramindex_original_and_copy_both_continue", "index_queries_in_varying_order",
+            "q_equals_1", "text_length_equals_q", "pattern_length_equals_q", "min_count_equals_a_diagonal_count",
+            "max_count_equals_an_occurrence_count", "max_count_one_below_an_occurrence_count", "same_diagonal_pairs_every_distance", "same_diagonal_pair_closer_than_k",
             "pairs_exhaustive_small", "hash_side_seq1", "hash_side_seq2", "k_longer_than_a_sequence",
             "empty_match_list", "chain_step_continuation", "chain_step_jump", "expand_grew",
             "chains_on_expanded", "arbitrary_match_list", "grid_exhaustive_small", "nontrivial"],
